@@ -442,7 +442,7 @@ func drawZeroDist(t *rapid.T) zdCase {
 }
 
 func TestZeroDist(t *testing.T) {
-	// exhaustive: undirected graphs on <= 4 nodes with weights {0,1}; digraphs
+	// exhaustive: undirected graphs on <= 4 (thorough 5) nodes with weights {0,1}; digraphs
 	// on <= 3 nodes with weights {0,1} and with weights {-1,0,1,2} (those with
 	// a negative cycle are skipped by the check)
 	type part struct {
@@ -455,7 +455,7 @@ func TestZeroDist(t *testing.T) {
 	if vk.Quick() {
 		parts = append(parts, part{3, true, []float64{-1, 0, 1}})
 	} else {
-		parts = append(parts, part{3, true, []float64{-1, 0, 1, 2}}, part{4, true, []float64{0, 1}})
+		parts = append(parts, part{3, true, []float64{-1, 0, 1, 2}}, part{5, false, []float64{0, 1}})
 	}
 	var cases []zdCase
 	for _, p := range parts {
